@@ -5,7 +5,7 @@ import re
 
 from ..pycalls import CallGraph
 from ..pycfg import CFG, walk_no_nested, enclosing_trys, broad_handler, handler_reraises
-from ..source import AnalysisError, find_function, first_line, src, functions, qualname
+from ..source import atoms, AnalysisError, find_function, first_line, src, functions, qualname
 
 CFGPY = "nemoguardrails/rails/llm/config.py"
 UTILS = "nemoguardrails/colang/v2_x/lang/utils.py"
@@ -26,6 +26,7 @@ def run(ctx):
     a_b_conversion(ctx)
     layout_facts(ctx)
     loop_progress(ctx)
+    import_loop_terminates(ctx)
     layout_hash_inputs(ctx)
     positions_agree(ctx)
     result_types(ctx)
@@ -490,6 +491,57 @@ def loop_progress(ctx):
                   "every path through one iteration appends to `%s` (or raises), so the loop terminates after one pass per file" % grown if ok else
                   "some path through the loop body returns to the loop test without appending to `%s`: for such a file the loader spins forever instead of finishing or raising a parsing error" % grown,
                   line=w.line)
+
+
+def import_loop_terminates(ctx):
+    """`never a hang` for the import resolution: `_load_imported_paths` loops while the number of resolved paths (a dict: unique keys) differs from the number of entries of
+    the `import_paths` list.  That terminates only if the list never holds a duplicate - a file that imports the same module twice would otherwise spin forever.  So either
+    the loop compares sets, or every writer of the list keeps it duplicate-free: an append under a `not in <the list itself>` test, or a value built through dict.fromkeys / set."""
+    t = ctx.tree.ast(CFGPY)
+    fn = find_function(t, "_load_imported_paths")
+    if fn is None:
+        raise AnalysisError("_load_imported_paths not found", anchor=CFGPY + "::_load_imported_paths")
+    whiles = [w for w in walk_no_nested(fn) if isinstance(w, ast.While) and "import_paths" in src(w.test)]
+    ctx.floor("C13.e.import-paths-unique", CFGPY, "loop over the import paths", len(whiles), 1)
+    by_len = any(re.search(r"len\(.*imported_paths.*\)\s*!=\s*len\(.*import_paths.*\)|len\(.*import_paths.*\)\s*!=\s*len\(.*imported_paths.*\)", src(w.test)) for w in whiles)
+    if not by_len:
+        ctx.check("C13.e.import-paths-unique", CFGPY, fn.name, "loop condition", True, "the loop does not count list entries against unique keys", line=fn.lineno)
+        return
+
+    def is_list(e):
+        return isinstance(e, ast.Subscript) and isinstance(e.slice, ast.Constant) and e.slice.value == "import_paths"
+
+    def unique_value(v):
+        txt = re.sub(r"\s", "", src(v))
+        if isinstance(v, (ast.List,)) and not v.elts:
+            return True
+        if re.match(r"^\w+\.get\('import_paths',\[\]\)$", txt) or is_list(v):
+            return True            # the list itself / another list kept by the same discipline
+        if txt.startswith("list(dict.fromkeys(") or txt.startswith("sorted(set(") or txt.startswith("list(set("):
+            return True
+        return False
+    bad = []
+    n = 0
+    for f in functions(t):
+        for x in walk_no_nested(f):
+            if isinstance(x, ast.Assign) and any(is_list(tg) for tg in x.targets):
+                n += 1
+                if not unique_value(x.value):
+                    bad.append((x, "is assigned `%s`, which can contain the same path twice" % first_line(x.value, 60)))
+            if isinstance(x, ast.Call) and isinstance(x.func, ast.Attribute) and x.func.attr in ("append", "extend", "insert") and is_list(x.func.value):
+                n += 1
+                lst = re.sub(r"\s", "", src(x.func.value))
+                guarded = x.func.attr == "append" and any(
+                    isinstance(p_, ast.If) and any(isinstance(a_, ast.Compare) and len(a_.ops) == 1 and isinstance(a_.ops[0], ast.NotIn)
+                                                   and re.sub(r"\s", "", src(a_.comparators[0])) == lst and src(a_.left) == src(x.args[0]) for a_ in atoms(p_.test))
+                    for p_ in _anc(x, f))
+                if not guarded:
+                    bad.append((x, "grows by `%s` without a `not in` test against the list itself" % first_line(x, 60)))
+    ctx.floor("C13.e.import-paths-unique", CFGPY, "writers of the import_paths list", n, 1)
+    ctx.check("C13.e.import-paths-unique", CFGPY, "_join_config", "import_paths stays duplicate-free", not bad,
+              "every writer keeps the import_paths list free of duplicates, so the import loop ends when every path is resolved" if not bad else
+              "the import_paths list %s: a Colang file that imports the same module twice makes `len(imported_paths) != len(import_paths)` true forever - RailsConfig.from_path "
+              "hangs instead of loading the configuration or raising a parsing error" % bad[0][1], line=(bad[0][0].lineno if bad else fn.lineno))
 
 
 def v1_insert_progress(ctx):
